@@ -81,7 +81,7 @@ def main() -> int:
         ok = ok and hit
         shutil.rmtree(d, ignore_errors=True)
     # ---- the other self-contained models: must hold as configured
-    for mod in ("MC_Pool", "Deps", "Faults", "Variants", "Gen_Sites", "LinePipe", "XmlDocs", "MC_ExprRewrite", "WithScope", "SqlParam", "WalrusIf", "Prefilter"):
+    for mod in ("MC_Pool", "Deps", "Faults", "Variants", "Gen_Sites", "LinePipe", "XmlDocs", "MC_ExprRewrite", "WithScope", "WalrusIf", "Prefilter"):   # SqlParam: run above, on its stub data
         r = tlc.run_tlc(spec, mod, f"{mod}.cfg", timeout=900)
         print(f"tlc  {'ok  ' if not r.violated else 'FAIL'} {mod}: {r.distinct} states, {r.wall_s:.1f}s {[v[1] for v in r.violated][:2]}")
         ok = ok and not r.violated
@@ -99,9 +99,10 @@ def main() -> int:
     # ---- non-vacuity of SqlParam.tla: weakened piece-level rules must be refuted
     base = (spec / "SqlParam.cfg").read_text()
     base = base.replace("MaxConds = 2", "MaxConds = 3").replace("MaxItems = 3", "MaxItems = 2")  # three conditions, shorter values
-    for variant, inv in (("tree", None), ("no-parity", "C08_PatternsAreCompleteQuotedValues"), ("no-pushback", "LemmaComplete")):
+    for variant, inv in (("tree", None), ("no-parity", "C08_PatternsAreCompleteQuotedValues"), ("no-pushback", "LemmaComplete"), ("no-reset", "LemmaComplete")):
         d = scratch("sqlbug")
         shutil.copy(spec / "SqlParam.tla", d / "SqlParam.tla")
+        shutil.copy(spec / "stubs" / "SqlData.tla", d / "SqlData.tla")
         (d / "SqlParam.cfg").write_text(base.replace('RuleVariant = "tree"', f'RuleVariant = "{variant}"'))
         r = tlc.run_tlc(d, "SqlParam", "SqlParam.cfg", timeout=900, cont=True)
         if inv is None:
